@@ -2,6 +2,7 @@ package main
 
 import (
 	"fmt"
+	"go/token"
 	"go/types"
 	"sort"
 	"strings"
@@ -1017,4 +1018,116 @@ func runCutSplit(p *Program, r *RuleResult) {
 			}
 		}
 	}
+}
+
+// R-TYPE-RECORDED (C01, C02, C13): the interpreter reads the session type the typechecker
+// left on a name (polarity of forwards, duplication, dropping); every name the typing rule
+// takes out of the context gets that type written into the form itself.
+func init() {
+	register(&Rule{Name: "R-TYPE-RECORDED", Min: 20,
+		Doc: "for every call of the consume function in a typing rule whose name argument is a name stored in the form (a field, or an element of a name-slice field): every path from that call to a success exit of the rule passes a store to the Type field of that same name inside the form (a store into a local copy of the name does not count)",
+		Run: runTypeRecorded})
+}
+
+// formNamePath: v is (a load of) a name that lives inside the form: a chain of FieldAddr /
+// IndexAddr / loads of slice fields rooted at the receiver. Returns a structural path with
+// indexes abstracted, "" otherwise.
+func formNamePath(v ssa.Value, recv *ssa.Parameter, d int) string {
+	if d > 8 {
+		return ""
+	}
+	switch x := v.(type) {
+	case *ssa.UnOp:
+		if x.Op == token.MUL {
+			return formNamePath(x.X, recv, d+1)
+		}
+	case *ssa.FieldAddr:
+		if b := formNamePath(x.X, recv, d+1); b != "" {
+			_, n, _ := fieldNameOf(x)
+			return b + "." + n
+		}
+	case *ssa.IndexAddr:
+		if b := formNamePath(x.X, recv, d+1); b != "" {
+			return b + "[]"
+		}
+	case *ssa.Parameter:
+		if x == recv {
+			return x.Name()
+		}
+	case *ssa.Extract:
+		// range over a slice of the form by value: not inside the form
+	}
+	return ""
+}
+
+func runTypeRecorded(p *Program, r *RuleResult) {
+	n := 0
+	for _, m := range p.typecheckMethods() {
+		view := p.View(m.Fn)
+		exits := map[ssa.Instruction]bool{}
+		for _, ret := range p.successExits(m) {
+			exits[ret] = true
+		}
+		ord := map[string]int{}
+		for _, c := range p.callsIn(m.Fn) {
+			call, ok := c.(*ssa.Call)
+			if !ok {
+				continue
+			}
+			sc := call.Common().StaticCallee()
+			if !(p.isConsumeFunc(sc) || looksLikeConsume(sc)) {
+				continue
+			}
+			var nameArg ssa.Value
+			for _, a := range call.Common().Args {
+				if isNameType2(a.Type()) {
+					nameArg = a
+					break
+				}
+			}
+			if nameArg == nil {
+				continue
+			}
+			path := formNamePath(nameArg, m.Recv, 0)
+			n++
+			key := path
+			if key == "" {
+				key = "local-copy:" + describeVal(nameArg)
+			}
+			ord[key]++
+			construct := fmt.Sprintf("type-of:%s#%d", key, ord[key])
+			if path == "" {
+				// the name consumed is a copy: the copy's origin inside the form, if any
+				var src string
+				if ld, ok := nameArg.(*ssa.UnOp); ok {
+					if al, ok := ld.X.(*ssa.Alloc); ok {
+						for _, st := range storesTo(al) {
+							if s := formNamePath(st.Val, m.Recv, 0); s != "" {
+								src = s
+							}
+						}
+					}
+				}
+				if src == "" {
+					r.add(fnName(m.Fn), construct, Holds, p.instrPos(call), "the consumed name is not stored in the form")
+					continue
+				}
+				path = src
+			}
+			want := path + ".Type"
+			isRecord := func(in ssa.Instruction) bool {
+				st, ok := in.(*ssa.Store)
+				return ok && formNamePath(st.Addr, m.Recv, 0) == want
+			}
+			// a success exit reachable from the call without passing a recording store?
+			hits := view.mayReachFrom(call, nil, func(in ssa.Instruction) bool { return exits[in] }, isRecord)
+			if len(hits) == 0 {
+				r.add(fnName(m.Fn), construct, Holds, p.instrPos(call), "every success path stores "+want)
+			} else {
+				r.add(fnName(m.Fn), construct, Violated, p.instrPos(call),
+					fmt.Sprintf("the rule can succeed (%s) without recording the type of %s in the form: the interpreter later asks that name for its polarity (forwards created when the process is duplicated or dropped) and finds no type", p.instrPos(hits[0]), path))
+			}
+		}
+	}
+	r.count("consumed names", n)
 }
